@@ -10,6 +10,8 @@ import (
 	"fmt"
 	"go/token"
 	"go/types"
+	"regexp"
+	"regexp/syntax"
 	"runtime"
 	"slices"
 	"strings"
@@ -73,6 +75,7 @@ type interpreter struct {
 	tainted     bool
 	vcwd        string
 	egErr       map[*value]value
+	reProgs     map[*regexp.Regexp]*syntax.Prog
 	summOK      map[*ssa.Function]bool
 	panicStack  []string
 	frozenNames []string
